@@ -98,10 +98,10 @@ def history_case(ctx, rng, remove_pbc):
 
 def run(ctx):
     from PyMatterSim.utils.pbc import remove_pbc  # binding replaced by the in-situ contract as well
-    for _ in range(ctx.n(200, 2000)):
+    for _ in range(ctx.n(600, 2000)):
         history_case(ctx, ctx.rng(), remove_pbc)
     eps = np.finfo(float).eps
-    ncase = ctx.n(3000, 30000)
+    ncase = ctx.n(9000, 30000)
     for _ in range(ncase):
         rng = ctx.rng()
         d = int(rng.choice([2, 3]))
